@@ -592,6 +592,9 @@ def main(replay=None):
         elif kind == "integrator":
             mo = core.run_model([rp["model_case"]]); ho = h.run([rp["harness_case"]])
             judge_integ(ck, [(rp["model_case"], rp["harness_case"], rp.get("what", {}))], mo, ho, h)
+        elif kind == "gains":
+            gp = rp["problem"]; gp["model"]["meshes"] = [(n, [tuple(v) for v in vs], [tuple(t) for t in ts]) for n, vs, ts in gp["model"]["meshes"]]
+            run_gain_problem(ck, h, gp, {})
         elif kind == "location":
             m = rp["model"]; m["meshes"] = [(n, [tuple(v) for v in vs], [tuple(t) for t in ts]) for n, vs, ts in m["meshes"]]
             m["interfaces"] = [(n, [tuple(x) for x in l]) for n, l in m["interfaces"]]; m["domains"] = [(n, [tuple(x) for x in l]) for n, l in m["domains"]]
@@ -684,6 +687,10 @@ def main(replay=None):
                 key = "%s %s" % (s["fn"], "adaptive tol=%g" % s["cfg"][2] if s["fn"] == "dsm" and s["cfg"][1] > 0 else "fixed")
                 worst_add[key] = max(worst_add.get(key, 0.0), s["_worst"])
         a, b = judge_struct(ck, h, structs, m, mid); nstruct += a; struct_mis += b
+    # every gain class of gain.h, batch sizes that cross any plausible block size
+    gstats = {}
+    for k, ndg in enumerate([70, 33] if quick else [70, 33, 65, 130]):
+        run_gain_problem(ck, h, gain_problem(ck.rng, ndg, 500 + k), gstats)
     ms = meg_specs(ck.rng, quick); nspec_fail += run_specs(ck, h, ms, mdl_of); allspecs += ms
     if consts is not None:
         judge_values(h, [(core.fcase("c08m", [len(s["sens"]), len(s["dips"])], [consts["MagFactor"]] + flat(s["sens"]) + flat(s["dips"])), meg_line(s["sens"], s["dips"]), "DipSource2MEGMat")
@@ -704,6 +711,7 @@ def main(replay=None):
                   samples=[json.dumps({k: v for k, v in allspecs[0].items() if k not in ("dips",)})[:300], ic[len(ic) // 2][1][:200]],
                   op_distribution=rel_dist, models=infos, integrator=istats, structure_cases=nstruct, structure_mismatches=struct_mis,
                   relation_failures=nspec_fail, traces_validated_against_impl=nstruct + len(ic) + vstats["agree_cases"],
+                  dipole_gains=dict(gstats, classes=GAIN_CLASSES, note="every gain class of gain.h: each column of a batch vs the dipole alone and vs a permuted batch, at %g*max|gain|" % GAIN_REL),
                   point_location=dict(points_checked=loc_checked, mislocated=loc_bad, note="every generated dipole / potential point: the library's containing domains (Domain::contains for every domain) vs the generator's own winding-number location; includes points just inside and just outside the extreme vertices of every mesh along +-x, +-y, +-z"),
                   surf_source=dict(star_cases=sum(1 for s_ in allspecs if s_["rel"] == "star"), unchanged_columns_compared=sum(len(s_["same"]) for s_ in allspecs if s_["rel"] == "star"),
                                    threw=sum(s_.get("_threw", 0) for s_ in allspecs if s_["rel"] == "star"), of_which_nonzero=sum(s_.get("_nonzero", 0) for s_ in allspecs if s_["rel"] == "star"), columns_that_did_change=sum(s_.get("_changed", 0) for s_ in allspecs if s_["rel"] == "star"),
@@ -774,6 +782,57 @@ def judge_integ(ck, ic, mo, ho, h=None):
                      % (len(mism), len(ic), bad, what.get("kind"), what.get("order"), what.get("depth"), hl[:160]),
                      dict(kind="integrator", model_case=ml, harness_case=hl, what=what, replay_cmd="./check C08 --replay <this file>"), found_input=False)
     return st
+
+GAIN_CLASSES = ["GainEEG", "GainEEGadjoint", "GainEEGMEGadjoint(EEG)", "GainMEG", "GainMEGadjoint", "GainEEGMEGadjoint(MEG)"]
+GAIN_REL = 1e-9      # |difference| <= GAIN_REL * max|gain matrix| (solver class on a regular two-layer head; a correct blocked product may differ in the last bits)
+
+def gain_problem(rng, nd, mid):
+    """a regular two-layer head, few sensors, nd dipoles inside the inner compartment (some sharing a location)"""
+    r1 = rng.uniform(0.75, 0.9); m = models.nested([r1, 1.0], [1.0, rng.choice([0.0125, 0.33])], 1); m["info"]["topology"] = "nested"
+    me, mm = rng.choice([1, 2, 3]), rng.choice([2, 3, 4])
+    eeg = models.sensors_on_sphere(rng, me, (0, 0, 0), 1.0); mpos = models.sensors_on_sphere(rng, mm, (0, 0, 0), 1.3); mori = [models.random_unit(rng) for _ in mpos]
+    pos, momu = models.dipoles_in_ball(rng, nd, (0, 0, 0), 0.7 * r1, 0.9)
+    dips = [tuple(p) + tuple(rng.choice([1.0, 1e-2, 30.0]) * x for x in q) for p, q in zip(pos, momu)]
+    for k in range(3, nd, 17): dips[k] = dips[k - 1][:3] + models.random_unit(rng)      # a few sites with two orientations
+    perm = list(range(nd)); rng.shuffle(perm)
+    return dict(model=m, mid=mid, eeg=[list(x) for x in eeg], mpos=[list(x) for x in mpos], mori=[list(x) for x in mori], dips=[list(d) for d in dips], perm=perm)
+
+def run_gain_problem(ck, h, gp, stats):
+    d = os.path.join(h.wd, "m%d" % gp["mid"]); m = gp["model"]
+    models.write_model(m, d)
+    models.write_points(os.path.join(d, "eeg.txt"), [tuple(x) for x in gp["eeg"]])
+    models.write_squids(os.path.join(d, "meg.txt"), [tuple(x) for x in gp["mpos"]], [tuple(x) for x in gp["mori"]])
+    nd = len(gp["dips"])
+    zi, fl = h.run([core.fcase("c08", [11, gp["mid"], nd] + gp["perm"], flat(gp["dips"]))])[0]
+    rep = dict(kind="gains", problem=gp, replay_cmd="./check C08 --replay <this file>")
+    if zi is None or zi[0] != 0:
+        ck.violation("gains: a gain class of gain.h throws on a batch of dipoles", "one of the gain classes threw / the process ended for a batch of %d dipoles on a regular two-layer head" % nd, rep)
+        return
+    me, mm = zi[1], zi[2]; p = [0]
+    def take6(n):
+        out = []
+        for rows in (me, me, me, mm, mm, mm):
+            out.append([[fl[p[0] + i * n + j] for i in range(rows)] for j in range(n)]); p[0] += rows * n     # list of columns
+        return out
+    batch = take6(nd); permd = take6(nd); singles = [take6(1) for _ in range(nd)]
+    stats["gain_batches"] = stats.get("gain_batches", 0) + 1; stats.setdefault("gain_batch_sizes", []).append(nd)
+    for k, name in enumerate(GAIN_CLASSES):
+        sc = max([abs(x) for c in batch[k] for x in c] + [1e-300])
+        if k >= 3: sc = max(sc, max([abs(x) for c in batch[3] for x in c] + [0.0]))
+        def differs(a, b): return any(not abs(x - y) <= GAIN_REL * sc for x, y in zip(a, b))
+        for i in range(nd):
+            stats["gain_columns"] = stats.get("gain_columns", 0) + 1
+            if differs(batch[k][i], singles[i][k][0]):
+                ck.violation("gains: %s column of a batch differs from the dipole alone" % name,
+                             "%s: column %d of the batch of %d dipoles is %r, the same dipole alone gives %r (allowed %g*%g): a dipole's lead field depends on the batch it is computed in"
+                             % (name, i, nd, batch[k][i][:3], singles[i][k][0][:3], GAIN_REL, sc), rep)
+                break
+        for j in range(nd):
+            if differs(permd[k][j], batch[k][gp["perm"][j]]):
+                ck.violation("gains: %s permuted batch" % name,
+                             "%s: column %d of the permuted batch (dipole %d of the original batch of %d) is %r, in the original batch %r"
+                             % (name, j, gp["perm"][j], nd, permd[k][j][:3], batch[k][gp["perm"][j]][:3]), rep)
+                break
 
 def judge_values(h, values, st):
     if not values: return
